@@ -206,6 +206,11 @@ def generate(rng, tier, boost):
         for _ in range(60 if big else 12):
             k = rbytes(rng, n)
             add((1003, [cps(ref_encode(k))]))
+    # strings decoding to the first k bytes (k = 0..4) of the hash of the empty payload / of a one-byte payload
+    for k in range(0, 5):
+        add((1003, [cps(ref_encode(sha256d(b'')[:k]))]))
+        add((1003, [cps(ref_encode(sha256d(b'\x00')[:k]))]))
+        add((1003, [cps(ref_encode(b'\x00' + sha256d(b'\x00')[:k]))]))
     # the F6 class: 4-byte strings that equal the hash prefix of their first byte (overlapping
     # slices), and 5-byte strings with correct / off-by-one checksums
     for v in range(256):
